@@ -166,7 +166,9 @@ def pcapng_file(packets, framing="ip"):
         if framing == "ip":
             w.writepkt(bytes(ip), ts)
         else:
-            eth = dpkt.ethernet.Ethernet(src=b"\x00" * 6, dst=b"\x00" * 6, type=dpkt.ethernet.ETH_TYPE_IP, data=ip)
+            # "eth": loopback capture (all-zero MACs); "eth-mac": a capture from a real network segment
+            macs = (b"\x00" * 6, b"\x00" * 6) if framing == "eth" else (bytes.fromhex(framing.split(":")[1]) + b"\x38\x39\x01\x02\x03", b"\x4c\x11\x22\x33\x44\x55")
+            eth = dpkt.ethernet.Ethernet(src=macs[1], dst=macs[0], type=dpkt.ethernet.ETH_TYPE_IP, data=ip)
             w.writepkt(bytes(eth), ts)
         ts += 1.0
     return f.getvalue()
